@@ -9,6 +9,7 @@ import (
 	"fmt"
 	"go/constant"
 	"go/token"
+	"go/types"
 	"path/filepath"
 	"sort"
 	"strings"
@@ -49,6 +50,9 @@ type wordEngine struct {
 	base     constant.Value
 	paramOK  map[*ssa.Parameter]int // 0 unknown, 1 bounded, 2 raw
 	paramWhy map[*ssa.Parameter]string
+	// Word fields of struct parameters (a bundle of conversion constants handed down as one value):
+	// bounded iff the field is given a bounded value at every construction that reaches a call site
+	fieldOK map[*ssa.Parameter]map[int]int
 }
 
 // exceptions: construct -> (allowed number of raw sites, reason) (frozen; DESIGN Appendix B2).
@@ -83,6 +87,31 @@ func (e *wordEngine) bounded(v ssa.Value, depth int, seen map[ssa.Value]bool) (b
 		if x.Op == token.MUL {
 			if ia, ok := x.X.(*ssa.IndexAddr); ok && m.IsWordSlice(ia.X.Type()) {
 				return true, "" // a word loaded from a mantissa
+			}
+			// a field of a struct parameter that was spilled into a local (c.bb with `c decConv`)
+			if fa, ok := x.X.(*ssa.FieldAddr); ok {
+				if al, ok := fa.X.(*ssa.Alloc); ok && al.Referrers() != nil {
+					var src *ssa.Parameter
+					n := 0
+					for _, u := range *al.Referrers() {
+						if st, ok := u.(*ssa.Store); ok && st.Addr == ssa.Value(al) {
+							n++
+							src, _ = st.Val.(*ssa.Parameter)
+						}
+					}
+					if n == 1 && src != nil {
+						switch e.fieldOK[src][fa.Field] {
+						case 1:
+							return true, ""
+						case 2:
+							return false, fmt.Sprintf("field %d of parameter %s is given a raw value at some call site", fa.Field, src.Name())
+						}
+						if e.fieldOK == nil || e.fieldOK[src] == nil {
+							return true, "" // optimistic while computing
+						}
+						return true, ""
+					}
+				}
 			}
 			if ia, ok := x.X.(*ssa.IndexAddr); ok {
 				// element of a package-level table (pow10tab, decMaxPow*): verified by CONST
@@ -165,6 +194,20 @@ func (e *wordEngine) bounded(v ssa.Value, depth int, seen map[ssa.Value]bool) (b
 		default:
 			return false, fmt.Sprintf("raw %s (can reach or exceed the base)", x.Op)
 		}
+	case *ssa.Field:
+		if p, ok := x.X.(*ssa.Parameter); ok {
+			switch e.fieldOK[p][x.Field] {
+			case 1:
+				return true, ""
+			case 2:
+				return false, fmt.Sprintf("field %d of parameter %s is given a raw value at some call site", x.Field, p.Name())
+			}
+			if e.fieldOK == nil || e.fieldOK[p] == nil {
+				return m.IsWord(x.Type()), "field of a struct parameter"
+			}
+			return true, "" // optimistic while computing
+		}
+		return false, "field of a struct value"
 	case *ssa.Parameter:
 		switch e.paramOK[x] {
 		case 1:
@@ -194,7 +237,7 @@ func tableGlobal(v ssa.Value) string {
 
 func (e *wordEngine) callBounded(call *ssa.Call, idx int, depth int, seen map[ssa.Value]bool) (bool, string) {
 	m := e.m
-	cal := call.Call.StaticCallee()
+	cal := model.Unthunk(call.Call.StaticCallee())
 	if cal == nil {
 		return false, "result of a dynamic call"
 	}
@@ -341,7 +384,98 @@ func relevantParams(m *model.Model, fns []*ssa.Function) map[*ssa.Parameter]bool
 	return rel
 }
 
+// WORD binary-kernel — the vector kernels ported from math/big (addVV, subVV, addVW, subVW, shlVU,
+// shrVU, mulAddVWW, addMulVVW, divWVW) compute modulo 2^W. They are for binary scratch data (the
+// radix conversion of setNat); applied to a slice of decimal words — a value of type dec, a
+// Decimal's mantissa — they leave words at or above the base and drop the carry one word early.
+var binaryVectorKernels = map[string]bool{"addVV": true, "subVV": true, "addVW": true, "subVW": true, "shlVU": true, "shrVU": true, "mulAddVWW": true, "addMulVVW": true, "divWVW": true}
+
+func runWordBinaryKernel(m *model.Model, s *ob.Set) {
+	const R = "WORD"
+	n := 0
+	var bad []string
+	pos := ""
+	for _, fn := range m.Funcs {
+		if !m.InDecimalPkg(fn) || len(fn.Blocks) == 0 || inKernelLayer(m, fn) {
+			continue
+		}
+		live := m.Live(fn)
+		for _, b := range fn.Blocks {
+			if !live[b.Index] {
+				continue
+			}
+			for _, in := range b.Instrs {
+				cal, c := model.Callee(in)
+				if cal == nil || !m.InDecimalPkg(cal) {
+					continue
+				}
+				nm := m.FuncName(cal)
+				nm = strings.TrimSuffix(nm, "_g")
+				if !binaryVectorKernels[nm] {
+					continue
+				}
+				n++
+				if pos == "" {
+					pos = m.InstrPos(in)
+				}
+				for _, a := range c.Args {
+					if !m.IsWordSlice(a.Type()) {
+						continue
+					}
+					v := a
+					for {
+						switch x := v.(type) {
+						case *ssa.Convert:
+							v = x.X
+							continue
+						case *ssa.ChangeType:
+							v = x.X
+							continue
+						case *ssa.Slice:
+							v = x.X
+							continue
+						}
+						break
+					}
+					isDec := m.IsDecNamed(v.Type())
+					if isDec {
+						// a scratch array made in this function is what the function puts into it, whatever
+						// the slice type it is given (b := make(dec, len(x)) filled with the words of a
+						// big.Int is a binary number)
+						rs := m.RootsOf(v)
+						fresh := len(rs) > 0
+						for l := range rs {
+							if l != "fresh" {
+								fresh = false
+							}
+						}
+						if fresh {
+							isDec = false
+						}
+					}
+					if lf, ok := m.LoadOfDecField(v); ok && lf.Field == m.F.Mant {
+						isDec = true
+					}
+					if isDec {
+						bad = append(bad, fmt.Sprintf("%s: %s (arithmetic modulo 2^W) is applied to decimal words in %s: a word equal to base−1 becomes base instead of wrapping to 0 with a carry", m.InstrPos(in), nm, m.FuncName(fn)))
+					}
+				}
+			}
+		}
+	}
+	if n == 0 && len(bad) == 0 {
+		return
+	}
+	if len(bad) == 0 {
+		s.Ok(R, "binary-kernel", pos, fmt.Sprintf("%d call(s) of a binary vector kernel, none on decimal words", n))
+	} else {
+		s.Bad(R, "binary-kernel", pos, bad[0], bad[1:]...)
+	}
+}
+
 func runWord(m *model.Model, s *ob.Set) {
+	runWordBinaryKernel(m, s)
+	runWordBaseProduct(m, s)
 	const R = "WORD"
 	e := &wordEngine{m: m, base: m.PkgConst("_DB"), paramOK: map[*ssa.Parameter]int{}, paramWhy: map[*ssa.Parameter]string{}}
 	var fns []*ssa.Function
@@ -390,7 +524,88 @@ func runWord(m *model.Model, s *ob.Set) {
 				}
 			}
 		}
-		e.paramOK, e.paramWhy = status, why
+		// struct parameters: per Word field
+		fstatus := map[*ssa.Parameter]map[int]int{}
+		for _, fn := range fns {
+			live := m.Live(fn)
+			for _, b := range fn.Blocks {
+				if !live[b.Index] {
+					continue
+				}
+				for _, in := range b.Instrs {
+					cal, c := model.Callee(in)
+					if cal == nil || len(cal.Blocks) == 0 || !m.InDecimalPkg(cal) || inKernelLayer(m, cal) {
+						continue
+					}
+					for ai, a := range c.Args {
+						if ai >= len(cal.Params) {
+							continue
+						}
+						stt, isStruct := cal.Params[ai].Type().Underlying().(*types.Struct)
+						if !isStruct || m.IsDecNamed(cal.Params[ai].Type()) {
+							continue
+						}
+						p := cal.Params[ai]
+						if fstatus[p] == nil {
+							fstatus[p] = map[int]int{}
+						}
+						set := func(k int, ok bool) {
+							if ok {
+								if fstatus[p][k] == 0 {
+									fstatus[p][k] = 1
+								}
+							} else {
+								fstatus[p][k] = 2
+							}
+						}
+						// the argument is the value of a local struct variable filled field by field, or
+						// the caller's own parameter handed on
+						switch av := a.(type) {
+						case *ssa.UnOp:
+							al, isAl := av.X.(*ssa.Alloc)
+							if av.Op != token.MUL || !isAl || al.Referrers() == nil {
+								for k := 0; k < stt.NumFields(); k++ {
+									set(k, false)
+								}
+								continue
+							}
+							given := map[int]bool{}
+							for _, u := range *al.Referrers() {
+								fa, ok := u.(*ssa.FieldAddr)
+								if !ok || fa.Referrers() == nil {
+									continue
+								}
+								for _, u2 := range *fa.Referrers() {
+									if st, ok := u2.(*ssa.Store); ok && st.Addr == ssa.Value(fa) {
+										given[fa.Field] = true
+										if m.IsWord(stt.Field(fa.Field).Type()) {
+											okv, _ := e.bounded(st.Val, 8, map[ssa.Value]bool{})
+											set(fa.Field, okv || e.guardedBelowBase(st.Val, st))
+										}
+									}
+								}
+							}
+							for k := 0; k < stt.NumFields(); k++ {
+								if !given[k] && m.IsWord(stt.Field(k).Type()) {
+									set(k, true) // the zero value
+								}
+							}
+						case *ssa.Parameter:
+							for k := 0; k < stt.NumFields(); k++ {
+								if m.IsWord(stt.Field(k).Type()) {
+									set(k, e.fieldOK[av][k] != 2)
+								}
+							}
+						default:
+							for k := 0; k < stt.NumFields(); k++ {
+								set(k, false)
+							}
+						}
+					}
+				}
+			}
+		}
+		e.paramOK, e.paramWhy, e.fieldOK = status, why, fstatus
 	}
 
 	type site struct {
@@ -495,4 +710,70 @@ func runWord(m *model.Model, s *ob.Set) {
 		}
 	}
 	s.Check(okUsers, R, "dec.setBytes/consumers", m.Pos(sb.Pos()), "only GobDecode consumes the unvalidated words (validated by rule GOB G2)", "dec.setBytes (unvalidated words) is called from "+strings.Join(users, ", ")+"; only the validating decoder may consume it")
+}
+
+// runWordBaseProduct: a mantissa word (anything up to base-1) times a constant, computed with the
+// plain * of a machine word, wraps as soon as constant × (base-1) does not fit the word; the
+// package multiplies through mulAddWWW_g / bits.Mul, which keep the high half. (x[1]*_DB in a
+// conversion to uint64 is right for x[1] <= 1 only.)
+func runWordBaseProduct(m *model.Model, s *ob.Set) {
+	const R = "WORD"
+	base := m.PkgConst("_DB")
+	arch := "amd64"
+	if m.Cfg.Name == "386" {
+		arch = "386"
+	}
+	sizes := types.SizesFor("gc", arch)
+	n := 0
+	for _, fn := range m.Funcs {
+		if !m.InDecimalPkg(fn) || len(fn.Blocks) == 0 || fn.Synthetic != "" {
+			continue
+		}
+		live := m.Live(fn)
+		k := 0
+		for _, b := range fn.Blocks {
+			if !live[b.Index] {
+				continue
+			}
+			for _, in := range b.Instrs {
+				bo, ok := in.(*ssa.BinOp)
+				if !ok || bo.Op != token.MUL {
+					continue
+				}
+				bt, ok := bo.Type().Underlying().(*types.Basic)
+				if !ok || bt.Info()&types.IsUnsigned == 0 {
+					continue
+				}
+				var c *ssa.Const
+				var w ssa.Value
+				if kc, ok := bo.X.(*ssa.Const); ok {
+					c, w = kc, bo.Y
+				} else if kc, ok := bo.Y.(*ssa.Const); ok {
+					c, w = kc, bo.X
+				}
+				if c == nil || c.Value == nil || c.Value.Kind() != constant.Int {
+					continue
+				}
+				// the other operand is a word of a mantissa: loaded from a Word slice
+				ld, ok := stripConv(w).(*ssa.UnOp)
+				if !ok || ld.Op != token.MUL {
+					continue
+				}
+				ia, ok := ld.X.(*ssa.IndexAddr)
+				if !ok || !m.IsWordSlice(ia.X.Type()) {
+					continue
+				}
+				bits := sizes.Sizeof(bt) * 8
+				lim := constant.Shift(constant.MakeInt64(1), token.SHL, uint(bits))
+				top := constant.BinaryOp(c.Value, token.MUL, constant.BinaryOp(base, token.SUB, constant.MakeInt64(1)))
+				n++
+				if constant.Compare(top, token.LSS, lim) {
+					continue
+				}
+				k++
+				s.Bad(R, fmt.Sprintf("%s/word-product#%d", m.FuncName(fn), k), m.InstrPos(bo), fmt.Sprintf("a mantissa word is multiplied by the constant %s in a %d-bit word: the product wraps for words the mantissa may hold (up to base-1); use the double-word multiplication (mulAddWWW_g, bits.Mul)", c.Value.ExactString(), bits))
+			}
+		}
+	}
+	_ = n
 }
